@@ -410,8 +410,19 @@ func registerSync(ex *Exec) {
 	I["(*sync.RWMutex).Lock"] = func(ex *Exec, st *State, args []Value, call ssa.CallInstruction) (Value, bool) {
 		key := lockKey(args[0].(Ptr))
 		ex.visible(st, "Lock "+key)
+		g := st.g()
 		if st.Locks["r"+key] == 0 && ex.tryLock(st, key) {
+			if g.PendingW == key {
+				g.PendingW = ""
+				st.Locks["w"+key]--
+			}
 			return nil, true
+		}
+		// sync.RWMutex: a blocked Lock call excludes new readers from acquiring the lock (no reader may expect to get a read
+		// lock while a writer waits - a goroutine that read-locks twice dead-locks when a writer arrives in between)
+		if g.PendingW != key {
+			g.PendingW = key
+			st.Locks["w"+key]++
 		}
 		return ex.blockOn(st, GBlockedLock, key)
 	}
@@ -422,7 +433,7 @@ func registerSync(ex *Exec) {
 		if st.Locks == nil {
 			st.Locks = map[string]int{}
 		}
-		if st.Locks[key] == 0 {
+		if st.Locks[key] == 0 && st.Locks["w"+key] == 0 {
 			st.Locks["r"+key]++
 			st.g().Held = append(st.g().Held, "r"+key)
 			ex.hbAcquire(st, key)
